@@ -449,6 +449,61 @@ fn relative_of(r: &mut Rng, a: &Name) -> Name {
     n
 }
 
+
+/// a name whose wire length (labels + length octets + root octet) is exactly `w` (w >= 1)
+fn name_of_wire_len(r: &mut Rng, w: usize) -> Name {
+    let mut n = Name::root();
+    let mut left = w.saturating_sub(1);
+    while left >= 2 {
+        let max = (left - 1).min(63);
+        // avoid leaving a remainder of exactly 1 (a label needs 2 octets)
+        let mut l = if r.chance(1, 2) { max } else { r.range(1, max as u64) as usize };
+        if left - 1 - l == 1 {
+            if l > 1 { l -= 1 } else { l = left - 1; }
+        }
+        let label: Vec<u8> = (0..l).map(|_| *r.pick(ALPHA)).collect();
+        n = n.append_label(&label[..]).expect("fits");
+        left -= 1 + l;
+    }
+    n
+}
+
+/// near-limit operands for the combinators: combined wire length in 253..=258
+fn limit_case(r: &mut Rng) -> String {
+    let total = r.range(253, 258) as usize; // wire length of the would-be result
+    match r.below(5) {
+        0 | 1 => {
+            // a ++ b : wire(a) + wire(b) - 1 = total
+            let wa = r.range(1, total as u64 - 1) as usize;
+            let wb = total + 1 - wa;
+            let mut a = name_of_wire_len(r, wa.min(255));
+            let mut b = name_of_wire_len(r, wb.min(255));
+            if r.chance(1, 2) { a.set_fqdn(false) }
+            if r.chance(1, 4) { b.set_fqdn(false) }
+            let op = if r.chance(1, 2) { "append_name" } else { "append_domain" };
+            format!("{op} {} {}", name_tok(&a), name_tok(&b))
+        }
+        2 => {
+            let l = r.range(1, 63) as usize;
+            let a = name_of_wire_len(r, (total - 1 - l).min(255));
+            let label: Vec<u8> = (0..l).map(|_| *r.pick(ALPHA)).collect();
+            format!("append_label {} {}", name_tok(&a), hex(&label))
+        }
+        3 => {
+            let l = r.range(1, 63) as usize;
+            let a = name_of_wire_len(r, (total - 1 - l).min(255));
+            let label: Vec<u8> = (0..l).map(|_| *r.pick(ALPHA)).collect();
+            format!("prepend_label {} {}", name_tok(&a), hex(&label))
+        }
+        _ => {
+            let a = name_of_wire_len(r, total.min(255));
+            let mut ls: Vec<Vec<u8>> = a.iter().map(|l| l.to_vec()).collect();
+            if total > 255 { ls.push(vec![b'x'; total - 255]); }
+            format!("from_labels {}", labels_tok(&ls))
+        }
+    }
+}
+
 fn gen_wire(r: &mut Rng) -> (Vec<u8>, usize) {
     // a buffer with a few names, pointers (valid / forward / self / chains), random tail
     let k0 = r.below(14) as usize;
@@ -556,11 +611,16 @@ pub fn run(o: &Opts, rec: &mut Recorder) {
         exec(&l, rec);
     }
     let mut r = Rng::new(o.seed);
-    let n = o.n(6000, 200_000);
+    let n = o.n(6000, 1_000_000);
     for i in 0..n {
         let small = r.chance(1, 2);
         let a = gen_name(&mut r, small);
         let bb = if r.chance(2, 3) { relative_of(&mut r, &a) } else { gen_name(&mut r, small) };
+        if i % 10 == 9 {
+            let line = limit_case(&mut r);
+            exec(&line, rec);
+            continue;
+        }
         let line = match i % 24 {
             0 | 1 | 2 => format!("cmp {} {}", name_tok(&a), name_tok(&bb)),
             3 => format!("cmpcase {} {}", name_tok(&a), name_tok(&bb)),
